@@ -13,6 +13,7 @@ package main
 import (
 	"encoding/json"
 	"fmt"
+	"go/importer"
 	"go/token"
 	"go/types"
 	"os"
@@ -28,7 +29,9 @@ type Held struct {
 }
 
 type Op struct {
-	T      string   `json:"t"` // acc | call | ref | once | dyncall
+	T      string   `json:"t"`             // acc | call | ref | once | dyncall | payload
+	M      string   `json:"m,omitempty"`   // method of a sync.Map access (Load, Store, ...)
+	Why    string   `json:"why,omitempty"` // payload: why the stored value carries hidden mutable state
 	Loc    string   `json:"loc,omitempty"`
 	K      string   `json:"k,omitempty"`   // r | w
 	Via    string   `json:"via,omitempty"` // plain | atomic | syncmap | cond
@@ -55,6 +58,7 @@ type Unit struct {
 	LitKind  string   `json:"lit_kind,omitempty"` // go | sync | defer | once:<field> | value
 	Inherit  []Held   `json:"inherit,omitempty"`  // for sync / once literals: locks held where the literal is called
 	InhOnces []string `json:"inherit_onces,omitempty"`
+	Stateful []string `json:"stateful,omitempty"` // function literal: captured variables that make it stateful
 	Ops      []Op     `json:"ops"`
 }
 
@@ -78,14 +82,29 @@ func problem(fset *token.FileSet, pos token.Pos, format string, a ...interface{}
 	out.Problems = append(out.Problems, fmt.Sprintf("%s:%d: ", filepath.Base(p.Filename), p.Line)+fmt.Sprintf(format, a...))
 }
 
-type fakeImporter struct{}
+// hybridImporter: packages of the standard library are type-checked from source (go/importer "source": their types, e.g.
+// hash.Hash or bytes.Buffer, are needed to recognise values that are not safe for concurrent use); every other import is
+// an empty package (opaque).
+type hybridImporter struct{ std types.Importer }
 
-func (fakeImporter) Import(path string) (*types.Package, error) {
+func (h hybridImporter) Import(path string) (*types.Package, error) {
+	first := path
+	if i := strings.Index(path, "/"); i >= 0 {
+		first = path[:i]
+	}
+	if !strings.Contains(first, ".") && h.std != nil {
+		if p, err := h.std.Import(path); err == nil {
+			return p, nil
+		}
+		out.Notes = append(out.Notes, "standard package "+path+" could not be type-checked from source: treated as opaque")
+	}
 	name := path[strings.LastIndex(path, "/")+1:]
 	p := types.NewPackage(path, name)
 	p.MarkComplete()
 	return p, nil
 }
+
+var theImporter = hybridImporter{std: importer.ForCompiler(token.NewFileSet(), "source", nil)}
 
 func main() {
 	if len(os.Args) < 2 {
